@@ -275,7 +275,12 @@ FirstAdvertised(prio, capab, octet, dflt) ==
    IF Len(prio) = 0 THEN dflt ELSE IF CapHas(capab, octet, Head(prio)) THEN Head(prio) ELSE FirstAdvertised(Tail(prio), capab, octet, dflt)
 ChSel(ch, capab) ==
    [ch EXCEPT !.encAlg = IF "encPrio" \in DOMAIN ch THEN FirstAdvertised(ch.encPrio, capab, 1, ch.encAlg) ELSE ch.encAlg,
-              !.intAlg = IF "intPrio" \in DOMAIN ch THEN FirstAdvertised(ch.intPrio, capab, 2, ch.intAlg) ELSE ch.intAlg]
+              !.intAlg = IF "intPrio" \in DOMAIN ch THEN FirstAdvertised(ch.intPrio, capab, 2, ch.intAlg) ELSE ch.intAlg,
+              \* the home network's sequence number is its own business: with sqnZero = n it picks one whose first n octets equal those of the
+              \* anonymity key, so that the concealed SQN at the head of AUTN (an input of the K_AUSF derivation) begins with n zero octets
+              !.sqn = IF "sqnZero" \in DOMAIN ch /\ ch.sqnZero > 0
+                      THEN LET ak == MilF5(Cfg.k, OpcOf, ch.rand) IN Tup([i \in 1..6 |-> IF i <= ch.sqnZero THEN ak[i] ELSE ch.sqn[i]])
+                      ELSE ch.sqn]
 
 \* Registration Request in an InitialUEMessage: a new UE appears
 HandleRegistrationRequest0(amf, t, m) ==
